@@ -17,6 +17,8 @@ pub const PUNCT: &[&str] = &[
     "+", "-", "*", "/", "=", "==", "!=", "<", ">", "<=", ">=", "~", "|", "^", "\"", "'", "\\",
     "/*", "*/", "//", "...", "!important", "!default", "!global", "!optional", "\n", "\n  ",
     "\n    ", " ", "\t", "\r\n", "\u{c}", "url(", "u+", "\u{feff}", "-", "--", "_",
+    // white space that is not ASCII white space (identifier characters to the parser, white space to `char::is_whitespace`)
+    "\u{a0}", "\u{85}", "\u{2003}", "\u{3000}", "\u{2028}", "\u{1680}", "\u{200b}", "\u{b}",
 ];
 
 pub const WORDS: &[&str] = &[
